@@ -220,8 +220,50 @@ pub fn run() {
     let cc = corpus::char_class_programs();
     run_family("f:character-classes", &cc, &mut fam, &mut bad, &mut classes);
     // (e) short strings
-    let shorts = corpus::short_strings(if quick { 3 } else { 5 });
+    let shorts = corpus::short_strings(if quick { 4 } else { 5 });
     run_family("e:short-strings", &shorts, &mut fam, &mut bad, &mut classes);
+    // thorough: every string of exactly 6 symbols, generated on the fly (191 102 976 inputs)
+    if !quick {
+        let total = 24u64.pow(6) as usize;
+        let outs = mc::par_ranges(total, 4096, |r| {
+            let mut o = Out::default();
+            for i in r {
+                let src = corpus::short_string_at(6, i as u64);
+                o.n += 1;
+                if i % 4096 == 0 {
+                    mc::watch::progress(|| case_line(&src));
+                }
+                let (c, v) = judge(&src);
+                *o.classes.entry(format!("{:?}", c)).or_default() += 1;
+                if let Some((k, w)) = v {
+                    let e = o.bad.entry(k).or_default();
+                    e.0 += 1;
+                    if e.1.len() < 4 {
+                        e.1.push((case_line(&src), w));
+                    }
+                }
+            }
+            o
+        });
+        let (mut n, mut acc) = (0u64, 0u64);
+        for o in outs {
+            n += o.n;
+            acc += o.classes.get("Accept").cloned().unwrap_or(0);
+            for (k, v) in o.classes {
+                *classes.entry(k).or_default() += v;
+            }
+            for (k, (cnt, cases)) in o.bad {
+                let e = bad.entry(k).or_default();
+                e.0 += cnt;
+                for c in cases {
+                    if e.1.len() < 4 {
+                        e.1.push((c.0, format!("[e:strings-of-length-6] {}", c.1)));
+                    }
+                }
+            }
+        }
+        fam.insert("e:strings-of-length-6".to_string(), (n, acc));
+    }
     // (c) single-token mutations: of the accepted sentences and of the repository's programs
     let mut muts: Vec<String> = vec![];
     let accepted_sentences: Vec<&String> = sentences.iter().filter(|s| matches!(mrasm::parse(s), Ok(_))).collect();
@@ -257,7 +299,7 @@ pub fn run() {
     ctx.set("distinct_nontrivial", accepted);
     ctx.set("rule", "every input of the enumerated families is parsed by AsmParser::parse (under catch_unwind) and by REF-PARSE; accept/reject, error class and the complete AST (PartialEq on Asm) must agree; distinct_nontrivial = inputs accepted by both (a full AST was compared), families are deduplicated sets");
     ctx.set("exhaustive", true);
-    ctx.set("bounds", format!("sentence family: every instruction form x operand-shape tokens x register tokens x numeric boundary tokens x separator and case variants ({}); all strings of length <= {} over a 24-symbol alphabet after a valid header; single-token mutations (delete/duplicate/replace by 30 tokens) of every {}th accepted sentence and of {} repository programs", if quick { "3 separators" } else { "5 separators" }, if quick { 3 } else { 5 }, step, repo.len()));
+    ctx.set("bounds", format!("sentence family: every instruction form x operand-shape tokens x register tokens x numeric boundary tokens x separator and case variants ({}); all strings of length <= {} over a 24-symbol alphabet (special characters, blanks, line ends, digits, letters, non-ASCII, NUL) after a valid header; single-token mutations (delete/duplicate/replace by 30 tokens) of every {}th accepted sentence and of {} repository programs", if quick { "3 separators" } else { "5 separators" }, if quick { 4 } else { 6 }, step, repo.len()));
     let mut fj = Json::obj();
     for (k, (n, a)) in &fam {
         let mut o = Json::obj();
